@@ -438,7 +438,17 @@ class Responder():
                     self.evented = True
 
         self.started = True
-        return self.write
+        return self.put
+
+
+    def put(self, msg):
+        """
+        WSGI write callable returned by start_response to the application.
+        An empty msg is not written, as in .service, since when chunked
+        .write(b'') sends the last chunk that ends the body
+        """
+        if msg:
+            self.write(msg)
 
 
     def service(self):
